@@ -9,6 +9,9 @@
 //!   hintsub  <nvars> <slots> <p> <vars> <hints> <state> <sub0> | <bits> <eq|ne|NA>
 //!   iterps   <nvars> <slots> <ps> <pe> <stop>              | <st> <log> <st> <log> <eq|ne|NA>
 //!   iterops  <nvars> <slots> <ps> <pe> <stop>              | <st> <log> <st> <log> <eq|ne|NA>
+//!   recycle  <nvars> <slots> <A|H|E> <vars|*> <p> <hints>  | <last_p> <items> <unfilled> <eq|ne|NA>
+//! (`recycle`: args prepared at p and handed back through get_empty_args(SubvarAccess::Args) + fill_args_at_p again;
+//! the histories also MUTATE with such recycled args; after every mutation every getter is compared with a scan)
 //! The oracle column is computed here from `get_pth(0..cutoff)` only (naive scans), never from the model.
 
 use qmc::sse::fast_ops::{FastOp, FastOps};
@@ -230,7 +233,7 @@ fn act_for(g: &mut SplitMix64, h: &Hist, old: Option<&SOp>, pool: &[usize], allo
 }
 
 /// one random public mutation inside the valid domain of the container
-fn mutate(g: &mut SplitMix64, h: &Hist, c: &mut FastOps, st: &mut Stats) {
+fn mutate(g: &mut SplitMix64, h: &Hist, c: &mut FastOps, st: &mut Stats) -> Result<(), String> {
     let s = scan(c);
     let len = s.len();
     let all: Vec<usize> = (0..h.nvars).collect();
@@ -240,9 +243,10 @@ fn mutate(g: &mut SplitMix64, h: &Hist, c: &mut FastOps, st: &mut Stats) {
         let k = len + 1 + g.below(((h.cap - len).min(8)) as u64) as usize;
         c.set_cutoff(k);
         bump(st, "mut_cutoff");
-        return;
+        return Ok(());
     }
-    match g.below(10) {
+    match g.below(13) {
+        10..=12 => return mutate_recycled(g, h, c, &s, st),
         0..=3 => {
             // single slot through a filled cursor
             let p = g.below(len as u64) as usize;
@@ -301,6 +305,212 @@ fn mutate(g: &mut SplitMix64, h: &Hist, c: &mut FastOps, st: &mut Stats) {
             }
         }
     }
+    Ok(())
+}
+
+/// The "complete whatever is still open" idiom: args prepared at `ps` (all variables + fill_args_at_p, or a Varlist +
+/// fill_args_at_p_with_hint with all or only some of the hints) are handed back through
+/// `get_empty_args(SubvarAccess::Args(args))` + `fill_args_at_p(ps, args)` and THEN used for a mutation
+/// (mutate_p / mutate_subsection / mutate_subsection_ops).  Err = an oracle verdict (real code only): the recycled
+/// cursor differs from the scan cursor before the mutation runs, or the contents afterwards are not the expected ones.
+fn mutate_recycled(g: &mut SplitMix64, h: &Hist, c: &mut FastOps, s: &[Option<SOp>], st: &mut Stats) -> Result<(), String> {
+    let len = s.len();
+    let all: Vec<usize> = (0..h.nvars).collect();
+    let occ: Vec<usize> = (0..len).filter(|p| s[*p].is_some()).collect();
+    let dense = occ.len() * 2 < len;
+    // 0 = all variables, 1 = Varlist + full hint fill, 2 = Varlist + hint fill with fewer hints (unresolved entries left)
+    let route = g.below(3);
+    let vars: Vec<usize> = if route == 0 {
+        all.clone()
+    } else {
+        let k = 1 + g.below(h.nvars.min(3) as u64) as usize;
+        rand_vars(g, &all, k)
+    };
+    let ps = match g.below(6) {
+        0 => 0,
+        1 | 2 if !occ.is_empty() => *g.pick(&occ),
+        _ => g.below(len as u64) as usize,
+    };
+    let pe = ps + g.below((len - ps) as u64 + 1) as usize;
+    let kind = g.below(3); // 0 mutate_p, 1 mutate_subsection, 2 mutate_subsection_ops
+    // prepare
+    let args = if route == 0 {
+        let a = c.get_empty_args(SubvarAccess::All);
+        c.fill_args_at_p(ps, a)
+    } else {
+        let mut hints = valid_hints(g, s, &vars, ps);
+        if route == 2 {
+            let n = g.below(vars.len() as u64) as usize;
+            hints.truncate(n);
+        }
+        let mut a = c.get_empty_args(SubvarAccess::Varlist(&vars));
+        c.fill_args_at_p_with_hint(ps, &mut a, &vars, hints.iter().cloned());
+        a
+    };
+    let first = parse_args_debug(&format!("{:?}", args));
+    // recycle
+    let args = c.get_empty_args(SubvarAccess::Args(args));
+    let args = c.fill_args_at_p(ps, args);
+    let cur = parse_args_debug(&format!("{:?}", args));
+    bump(st, &format!("mut_recycled_route{}_kind{}{}", route, kind, if ps == 0 { "_p0" } else { "" }));
+    if cur.unfilled > 0 {
+        bump(st, "mut_recycled_with_open_variables");
+    }
+    // oracle 1: the recycled cursor is the scan cursor at ps (before anything is mutated)
+    let want_lv: Vec<Option<usize>> = vars.iter().map(|v| prev_var(s, ps, *v).map(|x| x.0)).collect();
+    let want_lr: Vec<Option<usize>> = vars.iter().map(|v| prev_var(s, ps, *v).map(|x| x.1)).collect();
+    if cur.last_p != prev_occ(s, ps) || cur.lv != want_lv || cur.lr != want_lr {
+        c.return_args(args);
+        return Err(format!(
+            "recycled args (route {}, vars {:?}, p={}) differ from the scan cursor: last_p {:?} want {:?}; last_vars {:?} want {:?}; last_rels {:?} want {:?}; before recycling: last_p {:?} last_vars {:?}",
+            route, vars, ps, cur.last_p, prev_occ(s, ps), cur.lv, want_lv, cur.lr, want_lr, first.last_p, first.lv
+        ));
+    }
+    if route != 2 && (first.last_p, &first.lv, &first.lr) != (cur.last_p, &cur.lv, &cur.lr) {
+        c.return_args(args);
+        return Err(format!("recycling fully resolved args changed them: {:?} -> {:?}", first, cur));
+    }
+    // the mutation, and what the slots must look like afterwards
+    let shares = |o: &SOp| route == 0 || o.vars.iter().any(|v| vars.contains(v));
+    let inside = |o: &SOp| o.vars.iter().all(|v| vars.contains(v));
+    let mut expect: Vec<Option<String>> = s.iter().map(|x| x.as_ref().map(|o| o.shown.clone())).collect();
+    let mut put = |expect: &mut Vec<Option<String>>, p: usize, a: &Act| match a {
+        Act::K => {}
+        Act::R => expect[p] = None,
+        Act::S(o) => expect[p] = Some(show_op(&o.to_op())),
+    };
+    match kind {
+        0 => {
+            let old = s[ps].as_ref();
+            let act = if old.map(|o| inside(o)).unwrap_or(true) { act_for(g, h, old, &vars, true, true) } else { Act::K };
+            put(&mut expect, ps, &act);
+            let (_, a) = c.mutate_p(|_, _, t| (act.ret(), t), ps, (), args);
+            c.return_args(a);
+        }
+        1 => {
+            let acts: Vec<Act> = (ps..pe)
+                .map(|p| {
+                    let old = s[p].as_ref();
+                    if old.map(|o| inside(o)).unwrap_or(true) {
+                        act_for(g, h, old, &vars, true, dense)
+                    } else {
+                        Act::K
+                    }
+                })
+                .collect();
+            for (i, a) in acts.iter().enumerate() {
+                put(&mut expect, ps + i, a);
+            }
+            c.mutate_subsection(ps, pe, 0usize, |_, _op, i| (acts[i].ret(), i + 1), Some(args));
+        }
+        _ => {
+            // pend inclusive; the all-variables branch must not remove (it unwraps the node after the call)
+            let pe = pe.min(len - 1);
+            let acts: Vec<Act> = (ps..=pe)
+                .map(|p| match s[p].as_ref() {
+                    Some(o) if shares(o) && inside(o) => act_for(g, h, Some(o), &vars, route != 0, dense),
+                    _ => Act::K,
+                })
+                .collect();
+            for (i, a) in acts.iter().enumerate() {
+                put(&mut expect, ps + i, a);
+            }
+            c.mutate_subsection_ops(ps, pe, (), |_, _op, p, t| (acts[p - ps].ret(), t), Some(args));
+        }
+    }
+    // oracle 2: contents after the mutation
+    let after: Vec<Option<String>> = scan(c).iter().map(|x| x.as_ref().map(|o| o.shown.clone())).collect();
+    if after != expect {
+        return Err(format!("after a mutation with recycled args (route {}, kind {}, ps={}, pe={}) the slots are {:?}, expected {:?}", route, kind, ps, pe, after, expect));
+    }
+    Ok(())
+}
+
+/// every public getter / navigation answer against a scan of `get_pth` (after every mutation of a history)
+fn check_against_scan(m: &FastOps) -> Result<(), String> {
+    let cutoff = m.get_cutoff();
+    let ps: Vec<usize> = (0..cutoff).filter(|p| m.get_pth(*p).is_some()).collect();
+    if m.get_n() != ps.len() {
+        return Err(format!("get_n {} but {} occupied slots", m.get_n(), ps.len()));
+    }
+    if m.get_first_p() != ps.first().cloned() || m.get_last_p() != ps.last().cloned() {
+        return Err(format!("first/last p {:?}/{:?} vs scan {:?}/{:?}", m.get_first_p(), m.get_last_p(), ps.first(), ps.last()));
+    }
+    let mut walk = vec![];
+    let mut cur = m.get_first_p();
+    while let Some(p) = cur {
+        walk.push(p);
+        if walk.len() > cutoff || p >= cutoff {
+            return Err(format!("successor walk does not terminate / leaves the array: {:?}", walk));
+        }
+        let node = m.get_node_ref(p).ok_or_else(|| format!("successor walk reached empty slot {}", p))?;
+        cur = m.get_next_p(node);
+    }
+    if walk != ps {
+        return Err(format!("successor walk {:?} vs scan {:?}", walk, ps));
+    }
+    let mut walk = vec![];
+    let mut cur = m.get_last_p();
+    while let Some(p) = cur {
+        walk.push(p);
+        if walk.len() > cutoff || p >= cutoff {
+            return Err(format!("predecessor walk does not terminate / leaves the array: {:?}", walk));
+        }
+        let node = m.get_node_ref(p).ok_or_else(|| format!("predecessor walk reached empty slot {}", p))?;
+        cur = m.get_previous_p(node);
+    }
+    walk.reverse();
+    if walk != ps {
+        return Err(format!("predecessor walk {:?} vs scan {:?}", walk, ps));
+    }
+    for v in 0..m.get_nvars() {
+        let on_v: Vec<(usize, usize)> = ps.iter().filter_map(|p| m.get_pth(*p).unwrap().index_of_var(v).map(|r| (*p, r))).collect();
+        let f = m.get_first_p_for_var(v).map(|x| (x.p, x.relv));
+        let l = m.get_last_p_for_var(v).map(|x| (x.p, x.relv));
+        if f != on_v.first().cloned() || l != on_v.last().cloned() || m.does_var_have_ops(v) != !on_v.is_empty() {
+            return Err(format!("var {}: first/last {:?}/{:?} vs scan {:?}/{:?}", v, f, l, on_v.first(), on_v.last()));
+        }
+        let mut walk = vec![];
+        let mut cur = m.get_first_p_for_var(v);
+        while let Some(prel) = cur {
+            walk.push((prel.p, prel.relv));
+            if walk.len() > cutoff || prel.p >= cutoff {
+                return Err(format!("walk on var {} does not terminate / leaves the array", v));
+            }
+            let node = m.get_node_ref(prel.p).ok_or_else(|| format!("walk on var {} reached empty slot {}", v, prel.p))?;
+            if prel.relv >= node.get_op_ref().get_vars().len() {
+                return Err(format!("walk on var {}: relative index {} out of range at {}", v, prel.relv, prel.p));
+            }
+            cur = m.get_next_p_for_rel_var(prel.relv, node);
+        }
+        if walk != on_v {
+            return Err(format!("walk on var {}: {:?} vs scan {:?}", v, walk, on_v));
+        }
+        let mut walk = vec![];
+        let mut cur = m.get_last_p_for_var(v);
+        while let Some(prel) = cur {
+            walk.push((prel.p, prel.relv));
+            if walk.len() > cutoff || prel.p >= cutoff {
+                return Err(format!("backwards walk on var {} does not terminate / leaves the array", v));
+            }
+            let node = m.get_node_ref(prel.p).ok_or_else(|| format!("backwards walk on var {} reached empty slot {}", v, prel.p))?;
+            if prel.relv >= node.get_op_ref().get_vars().len() {
+                return Err(format!("backwards walk on var {}: relative index {} out of range at {}", v, prel.relv, prel.p));
+            }
+            cur = m.get_previous_p_for_rel_var(prel.relv, node);
+        }
+        walk.reverse();
+        if walk != on_v {
+            return Err(format!("backwards walk on var {}: {:?} vs scan {:?}", v, walk, on_v));
+        }
+    }
+    for b in 0..8 {
+        let want = ps.iter().filter(|p| m.get_pth(**p).unwrap().get_bond() == b).count();
+        if m.get_count(b) != want {
+            return Err(format!("get_count({}) = {} vs scan {}", b, m.get_count(b), want));
+        }
+    }
+    Ok(())
 }
 
 /// hints the callers may give: `None`, or any position (before, at or after `p`) holding an op on the variable
@@ -645,6 +855,101 @@ fn case_sub(g: &mut SplitMix64, h: &Hist, c: &mut FastOps, state: &[bool], consi
     }
 }
 
+/// args prepared at `p`, handed back through `get_empty_args(SubvarAccess::Args(..))` + `fill_args_at_p(p, ..)`
+fn case_recycle(g: &mut SplitMix64, h: &Hist, c: &mut FastOps, st: &mut Stats) {
+    let s = scan(c);
+    let len = s.len();
+    let all: Vec<usize> = (0..h.nvars).collect();
+    let occ: Vec<usize> = (0..len).filter(|p| s[*p].is_some()).collect();
+    // A: all variables + fill_args_at_p; H: Varlist + hint fill (full or, 1 in 3, fewer hints); E: empty args
+    let route = *g.pick(&["A", "H", "H", "E"]);
+    let star = route == "A" || (route == "E" && g.chance(1, 3));
+    let vars: Vec<usize> = if star {
+        all.clone()
+    } else {
+        let k = match g.below(10) {
+            0..=3 => 1,
+            4..=6 => 2,
+            7..=8 => 3,
+            _ => h.nvars,
+        };
+        rand_vars(g, &all, k)
+    };
+    let p = match g.below(6) {
+        0 => 0,
+        1 | 2 if !occ.is_empty() => *g.pick(&occ),
+        _ => g.below(len as u64) as usize,
+    };
+    let mut hints: Vec<Option<usize>> = vec![];
+    let mut partial = false;
+    if route == "H" {
+        hints = valid_hints(g, &s, &vars, p);
+        if g.chance(1, 3) {
+            let n = g.below(vars.len() as u64) as usize;
+            hints.truncate(n);
+            partial = true;
+        }
+    }
+    let input = format!("recycle {} {} {} {} {}", head(h, c), route, if star { "*".to_string() } else { list(&vars) }, p, show_hints(&hints));
+    let res = catch(|| {
+        let mut c = c.clone();
+        let a = match route {
+            "A" => {
+                let a = c.get_empty_args(SubvarAccess::All);
+                c.fill_args_at_p(p, a)
+            }
+            "H" => {
+                let mut a = c.get_empty_args(SubvarAccess::Varlist(&vars));
+                c.fill_args_at_p_with_hint(p, &mut a, &vars, hints.iter().cloned());
+                a
+            }
+            _ => {
+                if star {
+                    c.get_empty_args(SubvarAccess::All)
+                } else {
+                    c.get_empty_args(SubvarAccess::Varlist(&vars))
+                }
+            }
+        };
+        let first = parse_args_debug(&format!("{:?}", a));
+        let a = c.get_empty_args(SubvarAccess::Args(a));
+        let a = c.fill_args_at_p(p, a);
+        let cur = parse_args_debug(&format!("{:?}", a));
+        c.return_args(a);
+        (first, cur)
+    });
+    let nt = !occ.is_empty();
+    match res {
+        Err(e) => emit(nt, &input, "panic - 0 NA", Some(Err(format!("recycling args panicked: {}", e)))),
+        Ok((first, cur)) => {
+            let want_lv: Vec<Option<usize>> = vars.iter().map(|v| prev_var(&s, p, *v).map(|x| x.0)).collect();
+            let want_lr: Vec<Option<usize>> = vars.iter().map(|v| prev_var(&s, p, *v).map(|x| x.1)).collect();
+            let eq = cur.last_p == prev_occ(&s, p) && cur.lv == want_lv && cur.lr == want_lr;
+            // documented boundary of the NON-hint fill on empty Varlist args (F-C11-a): no listed variable has an op while
+            // ops lie below p => last_p stays None
+            let boundary = route == "E" && !star && !vars.iter().any(|v| first_var(&s, *v).is_some()) && prev_occ(&s, p).is_some();
+            let verdict = if boundary {
+                Ok(())
+            } else if !eq {
+                Err(format!(
+                    "recycled args (route {}, p={}) differ from the scan cursor: last_p {:?} want {:?}; last_vars {:?} want {:?}; last_rels {:?} want {:?}; before recycling: last_p {:?} last_vars {:?}",
+                    route, p, cur.last_p, prev_occ(&s, p), cur.lv, want_lv, cur.lr, want_lr, first.last_p, first.lv
+                ))
+            } else if route != "E" && !partial && (first.last_p, &first.lv, &first.lr) != (cur.last_p, &cur.lv, &cur.lr) {
+                Err(format!("recycling fully resolved args changed them: {:?} -> {:?}", first, cur))
+            } else {
+                Ok(())
+            };
+            bump(st, &format!("recycle_route_{}{}{}", route, if partial { "_partial" } else { "" }, if p == 0 { "_p0" } else { "" }));
+            if cur.unfilled > 0 {
+                bump(st, "recycle_with_open_variables");
+            }
+            let out = format!("{} {} {} {}", f_ou(cur.last_p), show_items(&cur), cur.unfilled, if eq { "eq" } else { "ne" });
+            emit(nt, &input, &out, Some(verdict));
+        }
+    }
+}
+
 fn show_log_ps(l: &[Option<String>]) -> String {
     if l.is_empty() {
         "-".into()
@@ -805,9 +1110,25 @@ fn run_history(g: &mut SplitMix64, h: &Hist, st: &mut Stats) -> usize {
     let mut lines = 0;
     for step in 0..h.len {
         // a public mutation inside its valid domain must not panic (the sub-sweeps go through the hint fill)
-        if let Err(e) = catch(|| mutate(g, h, &mut c, st)) {
-            emit(true, &format!("histpanic {}", step), "panic", Some(Err(format!("a valid public mutation panicked: {}", e))));
-            return lines + 1;
+        let before = show_slots(&c);
+        match catch(|| mutate(g, h, &mut c, st)) {
+            Err(e) => {
+                emit(true, &format!("histpanic {}", step), "panic", Some(Err(format!("a valid public mutation panicked: {} (contents before: {})", e, before))));
+                return lines + 1;
+            }
+            Ok(Err(e)) => {
+                emit(true, &format!("histbad {}", step), "bad", Some(Err(format!("{} (contents before: {})", e, before))));
+                return lines + 1;
+            }
+            Ok(Ok(())) => {}
+        }
+        // every getter / navigation answer = scan, after every mutation
+        match catch(|| check_against_scan(&c)) {
+            Ok(Ok(())) => {}
+            Ok(Err(e)) | Err(e) => {
+                emit(true, &format!("histbad {}", step), "bad", Some(Err(format!("after a valid mutation: {} (contents before: {})", e, before))));
+                return lines + 1;
+            }
         }
         if c.get_cutoff() == 0 {
             continue;
@@ -826,7 +1147,8 @@ fn run_history(g: &mut SplitMix64, h: &Hist, st: &mut Stats) -> usize {
         }
         case_iter_ps(g, h, &mut c, st);
         case_iter_ops(g, h, &mut c, st);
-        lines += 2;
+        case_recycle(g, h, &mut c, st);
+        lines += 3;
     }
     lines
 }
